@@ -180,6 +180,9 @@ class Prov:
                     return [("const", cv)]
                 if q.split(".")[0] not in ("ascmhl",):
                     return [("global", q)]
+            local = self._local_attr_stores(e, func, node, depth, stack)
+            if local is not None:
+                return local
             bases = self._orig(e.value, func, node, depth - 1, stack)
             bt = p.etype(e.value, func)
             cq = bt[1] if bt and bt[0] in ("C", "Cls") else None
@@ -238,6 +241,52 @@ class Prov:
         if isinstance(e, ast.Starred):
             return self._orig(e.value, func, node, depth - 1, stack)
         return [("unknown", norm(e))]
+
+    def _local_attr_stores(self, e: ast.Attribute, func, node, depth, stack):
+        """`x.a` where the same function stores `x.a = v` on a path to this use: the origins of those v.
+        When a store dominates the use only stores are returned, otherwise None (caller falls back to the attr term,
+        which the field-based expansion resolves)."""
+        if not isinstance(e.value, ast.Name) or node is None or not isinstance(e.ctx, ast.Load):
+            return None
+        base = e.value.id
+        g = cfg_of(func)
+        stores = []
+        for n in walk_no_nested(func.node):
+            if isinstance(n, ast.Assign):
+                for t in n.targets:
+                    if isinstance(t, ast.Attribute) and t.attr == e.attr and isinstance(t.value, ast.Name) and t.value.id == base:
+                        stores.append((n, n.value))
+        if not stores:
+            return None
+        key = (func.qual, "attr", base, e.attr, id(e))
+        if key in stack:
+            return None
+        live = []
+        dominated = False
+        for st, v in stores:
+            try:
+                sn = g.node_for(st)
+            except AnalysisError:
+                continue
+            if sn is node:
+                continue
+            if node.id in g.reachable_from([m for m, _ in sn.succ]):
+                live.append((sn, v))
+                if g.dominates(sn, node):
+                    dominated = True
+        if not live or not dominated:
+            return None
+        # keep only stores not killed by a later dominating store on every path: approximate by
+        # dropping stores that are themselves dominated by another live store which dominates the use
+        keep = []
+        for sn, v in live:
+            killed = any(o is not sn and g.dominates(sn, o) and g.dominates(o, node) for o, _ in live)
+            if not killed:
+                keep.append((sn, v))
+        out = []
+        for sn, v in keep:
+            out += self._orig(v, func, sn, depth - 1, stack | {key})
+        return out
 
     @staticmethod
     def _first(alts):
@@ -593,6 +642,35 @@ def find_calls(t, name_suffix):
 
 def leaves(t):
     return [s for s in subterms(t) if s[0] in ("const", "param", "global", "unknown", "self")]
+
+
+def sig(t, d=4) -> str:
+    """depth-limited rendering used to compare two provenance terms for 'same origin' independent of where the
+    depth bound cut them off"""
+    if not isinstance(t, tuple):
+        return repr(t)
+    if d <= 0:
+        return "~"
+    k = t[0]
+    if k == "const":
+        return repr(t[1])
+    if k == "param":
+        return f"param:{t[1]}.{t[2]}"
+    if k == "call":
+        return f"{t[1]}({','.join(sig(x, d - 1) for x in t[2])};{','.join(k2 + '=' + sig(v, d - 1) for k2, v in sorted(t[3].items()))};{sig(t[5], d - 1) if t[5] is not None else ''})"
+    if k == "attr":
+        return f"{sig(t[1], d - 1)}.{t[2]}"
+    if k == "elem":
+        return f"{sig(t[1], d - 1)}[{'' if t[2] is None else sig(t[2], d - 1)}]"
+    if k == "op":
+        return f"{t[1]}<{','.join(sig(x, d - 1) for x in t[2])}>"
+    if k == "alt":
+        return "{" + "|".join(sorted(sig(x, d) for x in t[1])) + "}"
+    if k == "global":
+        return t[1]
+    if k == "self":
+        return "self"
+    return "~"
 
 
 def show(t, depth=0) -> str:
